@@ -25,3 +25,20 @@ package logformat
 //@ iface Parser.MakeFields
 //@   assigns nothing
 //@   ensures [fields] implies(isnil(result1), result0 != nil)
+
+//@ global-invariant [sentinel-made] !isnil(ErrIgnoreFields)
+
+// ---- csv (C05) --------------------------------------------------------------------
+// The first line a csv parser sees is the header: it names the columns. Every
+// later line is a record: column i's value is field header[i]. One parser
+// serves all files of a session, so the header line of a second file comes
+// back as a record of column names (header-line-is-no-record fails: a known
+// finding, see /verif/known_findings.json).
+//@ func (*csvParser).MakeFields
+//@   assigns p.header, p.hasHeader
+//@   ensures [first-line-is-the-header] implies(!old(p.hasHeader), !isnil(result1) && p.hasHeader && join(p.header, ",") == maprLine)
+//@   ensures [header-kept] implies(old(p.hasHeader), p.hasHeader && p.header == old(p.header))
+//@   ensures [header-line-is-no-record] implies(old(p.hasHeader) && maprLine == join(old(p.header), ","), !isnil(result1))
+//@ func (*csvParser).parseHeader
+//@   assigns p.header, p.hasHeader
+//@   ensures [header] p.hasHeader && join(p.header, ",") == maprLine && forall(i, 0, len(p.header), !contains(p.header[i], ","))
